@@ -3,13 +3,13 @@
 E2 half (apply_rewrites): on the rewrite templates of the shared exploration, a call that returns false left every observable unchanged
 (node count, equality relation over all handles, slot and symmetry counts, progress measure) and the oracle agrees that no rule instance
 was new; a further call also returns false.
-E1 half (Runner loop): see checks/kani_runner.py (Kani harnesses over the compiled Runner with the environment stubbed).
+Runner-loop half: checks/runner_unit.py (Runner::run from MIR with apply_rewrites, node counts, the clock and the hooks as nondeterministic stubs).
 """
 from . import tmpl_props
 def run(tier, seed=0):
     extra = None
     try:
-        from . import kani_runner
+        from . import runner_unit as kani_runner
         extra = kani_runner.unit(tier)
     except ImportError: pass
     return tmpl_props.run('C15', tier, seed, extra)
